@@ -265,13 +265,14 @@ def run(ctx):
                       sim=n, depth=30)
     if not q:
         export_and_replay(ctx, "simnd", dict(big, Vlog="FALSE", Drain="FALSE"), [[], ["--vlog"]], sim=n, depth=30)
+    ckpt_race(ctx)
     ctx.cov["exhaustive"] = True
     ctx.cov["rule"] = ("every transition TLC explores in the bounded Checkpoint model (hist hidden by VIEW) is exported as "
                        "a scenario and executed on a real Tree under each option set; scenarios that are prefixes of "
                        "others are merged (their observations are embedded)")
     ctx.assumptions += [
         "bounds: 2-3 keys, one-key set/delete transactions, <= %d steps exhaustively, 1 checkpoint (2 in random runs)" % ctx.pick(7, 8),
-        "no transaction is open across a restore; checkpoints are taken while no commit is in flight",
+        "no transaction is open across a restore; checkpoints are taken while no commit is in flight (scenario replay: also no background work; ckpt_race: background flush / compaction running)",
         "background flush/compaction are kept idle (high L0 trigger); flush / compaction rounds go through the verif "
         "entry points that call the production code paths; a tokio current-thread runtime drives commits",
         "a reopen uses fresh Options (a new process would not share the block cache of the old one)",
@@ -280,8 +281,38 @@ def run(ctx):
     ]
 
 
+CKPT_KINDS = ("checkpoint_failed", "checkpoint_unopenable", "checkpoint_holds_later_commit")
+
+
+def ckpt_race(ctx, pid="C14"):
+    """hook-free: checkpoints taken between bursts of commits - no commit in flight (as the property says), but the
+    background flush and compaction tasks still busy with what the burst left behind. C14 judges the checkpoints (open,
+    exactly the commits acknowledged before); C07 judges the live store (no commit or read error, reopens, nothing lost);
+    C07 also runs it with checkpoints overlapping commits."""
+    core.build_harness(["ckpt_race"])
+    for i in range(ctx.pick(3, 12)):
+        args = ["--commits", ctx.pick(12000, 20000), "--memtable", [16384, 32768, 65536][i % 3], "--checkpoints", 200]
+        if pid == "C07" and i % 2 == 1:
+            args.append("--overlap")
+        s = core.run_driver("ckpt_race", args, timeout=900)
+        ctx.add_driver(s)
+        for v in s["violations"]:
+            kind = str(v.get("kind"))
+            mine = (kind in CKPT_KINDS or (kind != "reopen_refused" and "checkpoint" in str(v.get("what", "")))) == (pid == "C14")
+            if not mine:
+                ctx.cov["reported_by_sibling"] = ctx.cov.get("reported_by_sibling", 0) + 1
+                continue
+            ctx.violation({"driver": "ckpt_race", "args": [str(a) for a in args]},
+                          {"needs": "concurrent_compaction", "symptom": kind} if pid == "C14" else {"class": kind, "driver": "ckpt_race"},
+                          "%s: %s" % (kind, json.dumps({k: v[k] for k in v if k != "kind"})[:300]))
+        ctx.cov["checkpoints_during_background_work"] = ctx.cov.get("checkpoints_during_background_work", 0) + s.get("cases", 0)
+
+
 def replay(ctx, doc):
     rp = doc["replay"]
+    if rp.get("driver") == "ckpt_race":
+        ckpt_race(ctx, "C14")
+        return
     with tempfile.NamedTemporaryFile("w", suffix=".ndjson", delete=False) as f:
         f.write(json.dumps(rp["scenario"]) + "\n")
     try:
